@@ -88,6 +88,15 @@ func genC16(t *rapid.T) c16Case {
 		}
 		c.Rounds = append(c.Rounds, round)
 	}
+	if rapid.IntRange(0, 2).Draw(t, "descEveryRound") == 0 {
+		// the description of one issue is edited again in every round: each import meets the older
+		// "changed the description" notes again, next to a new one
+		k := rapid.IntRange(0, len(c.Rounds[0].NewIssues)-1).Draw(t, "descIssue")
+		for r := range c.Rounds {
+			c.Rounds[r].Events = append(c.Rounds[r].Events, c16Event{Issue: k, Kind: "description", User: rapid.IntRange(0, 3).Draw(t, "descUser"),
+				Text: fmt.Sprintf("description as of round %d: %s", r, text.Draw(t, "descText"))})
+		}
+	}
 	return c
 }
 
